@@ -1005,10 +1005,9 @@ def c06_plumbing(model, rep):
     rep.instance("R3", "system.System.%s name -> index map" % r["SET_PHLK"], "%s:%d" % (rel, loop.lineno), ok)
     # the lookup is rebuilt by the initialiser of every solve
     init_def = model.own_method("System", sol["init"].value.func.attr)
-    calls = {c.func.attr for c in ast.walk(init_def) if isinstance(c, ast.Call) and isinstance(c.func, ast.Attribute) and is_name(c.func.value, "self")}
-    ok = r["SET_PHLK"] in calls
+    ok = r["SET_PHLK"] in uncond_closure(model, init_def.body)
     if not ok:
-        rep.violation("R3", "system.System.%s" % init_def.name, "%s:%d" % (rel, init_def.lineno), "the phase lookup is not rebuilt before solving", "phase lookup refresh")
+        rep.violation("R3", "system.System.%s" % init_def.name, "%s:%d" % (rel, init_def.lineno), "the phase lookup is not rebuilt (unconditionally) before solving", "phase lookup refresh")
     rep.instance("R3", "system.System.%s rebuilds the phase lookup" % init_def.name, "%s:%d" % (rel, init_def.lineno), ok)
     pass_wiring(model, rep, r, "R3")
     # ---- R4 phase independence
@@ -1462,6 +1461,45 @@ def closure_from(model, nodes):
     return seen
 
 
+def uncond_self_calls(stmts):
+    """self.<m>(..) calls executed on every path through stmts: those in top-level simple statements (and With bodies), not
+    under if / for / while / try, nor in the short-circuited part of a conditional expression"""
+    out = set()
+    for s in stmts:
+        if isinstance(s, (ast.Assign, ast.AugAssign, ast.AnnAssign, ast.Expr, ast.Return)):
+            skip = set()
+            for x in ast.walk(s):
+                if isinstance(x, ast.IfExp):
+                    skip |= {id(y) for part in (x.body, x.orelse) for y in ast.walk(part)}
+                elif isinstance(x, ast.BoolOp):
+                    skip |= {id(y) for part in x.values[1:] for y in ast.walk(part)}
+                elif isinstance(x, (ast.ListComp, ast.SetComp, ast.DictComp, ast.GeneratorExp, ast.Lambda)):
+                    skip |= {id(y) for y in ast.walk(x)}
+            for c in ast.walk(s):
+                if isinstance(c, ast.Call) and id(c) not in skip and isinstance(c.func, ast.Attribute) and is_name(c.func.value, "self"):
+                    out.add(c.func.attr)
+        elif isinstance(s, ast.With):
+            out |= uncond_self_calls(s.body)
+        if isinstance(s, (ast.Return, ast.Raise, ast.Continue, ast.Break)):
+            break
+    return out
+
+
+def uncond_closure(model, stmts):
+    todo = set(uncond_self_calls(stmts))
+    seen = set()
+    while todo:
+        m = todo.pop()
+        if m in seen:
+            continue
+        fn = model.own_method("System", m)
+        if fn is None:
+            continue
+        seen.add(m)
+        todo |= uncond_self_calls(fn.body) - seen
+    return seen
+
+
 def object_state_rule(model, rep, r, rule):
     """phase independence through object state: any self-attached state that is mutated in place, or assigned under a
     condition, by code reachable from the phase loop of solve() must be rebuilt unconditionally inside that loop; otherwise
@@ -1470,10 +1508,17 @@ def object_state_rule(model, rep, r, rule):
     an = solve_anchors(model, r)
     ploop = an["phase_loop"]
     methods = closure_from(model, ploop.body)
+    always = uncond_closure(model, ploop.body)
     U, Cn, M, Rd = {}, {}, {}, {}
     for m in sorted(methods):
         fn = model.own_method("System", m)
         u, c, mu, rd = method_state_effects(fn)
+        if m not in always:
+            # a rebuild that is itself only reached under a condition is a cache, not a rebuild
+            c = dict(c)
+            for k, line in u.items():
+                c.setdefault(k, line)
+            u = {}
         for d, src in ((U, u), (Cn, c), (M, mu)):
             for k, line in src.items():
                 d.setdefault(k, (m, line))
